@@ -369,6 +369,9 @@ func (c ProdCfg) Opts() []kgo.Opt {
 	return o
 }
 
+// ProduceErrResp is the exported form of produceErrResp.
+func ProduceErrResp(req *kmsg.ProduceRequest, code int16) kmsg.Response { return produceErrResp(req, code) }
+
 func produceErrResp(req *kmsg.ProduceRequest, code int16) kmsg.Response {
 	resp := req.ResponseKind().(*kmsg.ProduceResponse)
 	for _, t := range req.Topics {
